@@ -161,8 +161,16 @@ def law_check(cases, impl_out):
             name = op.split()[1]
             prev = ops[i - 1].split()[1]
             fires = [e for e in events_of(res[i]) if e.startswith("fire:")]
+            fcnts = [int(e.split(":")[1]) for e in events_of(res[i]) if e.startswith("firecnt:")]
             if name in ("delete", "getanddelete", "deleteexpired") and prev == "dump":
                 now, cb, ents = parse_dump(res[i - 1])
+                # C06: the callback runs only when the entry HAS BEEN removed: what it sees of the cache (Count, read
+                # by the driver's callback while it runs) no longer contains the entry it is told about
+                n_exp = sum(1 for v, e in ents.values() if 0 < e < now)
+                lo, hi = (len(ents) - n_exp, len(ents) - 1) if name == "deleteexpired" else (len(ents) - 1, len(ents) - 1)
+                if fcnts and any(not (lo <= c <= hi) for c in fcnts):
+                    c06.append(dict(case=ci, index=i, op=op, impl=res[i],
+                                    why="a callback ran while the cache still held its entry: Count seen inside the callbacks %s, %d entries before the call, expected %d..%d" % (fcnts, len(ents), lo, hi)))
                 if name == "deleteexpired":
                     removed = [(k, v) for k, (v, e) in ents.items() if 0 < e < now]
                 else:
